@@ -252,3 +252,11 @@ impl Session {
         self.base_settings.add_root_certificate(cert);
     }
 }
+
+#[cfg(feature = "verif-hooks")]
+impl Session {
+    #[doc(hidden)]
+    pub fn verif_snapshot(&self) -> crate::verif::Snapshot {
+        crate::verif::snapshot(&self.base_settings)
+    }
+}
